@@ -53,8 +53,8 @@ BrokenHow(e, b) ==
   IF b <= Len(e.frames) /\ HeadersBroken(e.role, StateAt(e.role, e.frames, b - 1), e.frames[b])
   THEN LET k == KindOf(e.role, StateAt(e.role, e.frames, b - 1), e.frames[b]) IN k \o ":" \o BrokenRule(k, e.frames[b].hs)
   ELSE LET s == StateAt(e.role, e.frames, Len(e.frames)) IN
-       "content-length-mismatch:" \o (IF \A d \in s.declared : s.body > d THEN "body-longer"
-                                      ELSE IF \A d \in s.declared : s.body < d THEN "body-shorter" ELSE "body-between")
+       "cl-mismatch:" \o (IF \A d \in s.declared : s.body > d THEN "body-longer"
+                          ELSE IF \A d \in s.declared : s.body < d THEN "body-shorter" ELSE "body-between")
 
 HPEvents(e) == SelectSeq(e.events, IsHP)
 \* kind of the j-th header event: what the application takes it for
@@ -104,6 +104,11 @@ ModelOutcome(e) ==
        /\ Delivered(e) <= ImplBodyAt(e, IF r > n THEN n ELSE r)
        /\ ~EndSeen(e)
 
+\* TLC's PrintT wraps a tuple that does not fit in 80 columns and the harness
+\* reads verdicts line by line: a clause name must stay short.  A name that
+\* would wrap is turned into a machinery failure rather than a lost verdict.
+Name(s) == IF Len(s) <= 44 THEN s ELSE "harness-guard"
+
 Clauses(e) ==
   IF ~Guard(e) THEN << <<"harness-guard", FALSE>> >> ELSE
   LET b == FirstBroken(e)
@@ -111,18 +116,18 @@ Clauses(e) ==
       bad == BadEvents(e)
       isHdr == b # 0 /\ b <= Len(e.frames) /\ HeadersBroken(e.role, StateAt(e.role, e.frames, b - 1), e.frames[b]) IN
   << \* every header block handed to the application is well-formed
-     <<IF bad = {} THEN "delivered" ELSE
-         "delivered-malformed:" \o EventKind(e, Min(bad)) \o ":" \o BrokenRule(EventKind(e, Min(bad)), HPEvents(e)[Min(bad)].hs),
+     <<IF bad = {} THEN "bad-event" ELSE
+         Name("bad-event:" \o EventKind(e, Min(bad)) \o ":" \o BrokenRule(EventKind(e, Min(bad)), HPEvents(e)[Min(bad)].hs)),
        bad = {}>>,
      \* a message breaking a rule produces no event for the offending block ...
-     <<"broken-produced-event:" \o how,
+     <<Name("event-for:" \o how),
        isHdr => Len(HPEvents(e)) <= Len(SelectSeq(SubSeq(e.frames, 1, b - 1), IsHP))>>,
      \* ... and no end of stream when it is the content-length that disagrees
-     <<"broken-stream-ended:" \o how, (b # 0 /\ ~isHdr) => ~EndSeen(e)>>,
+     <<Name("ended-despite:" \o how), (b # 0 /\ ~isHdr) => ~EndSeen(e)>>,
      \* ... and closes the connection with the HTTP/3 message error
-     <<"broken-not-message-error:" \o how, b # 0 => e.close = H3_MESSAGE_ERROR>>,
+     <<Name("no-msg-error:" \o how), b # 0 => e.close = H3_MESSAGE_ERROR>>,
      \* when a stream ends, a declared content-length equals the body delivered
-     <<"ended-content-length-mismatch:" \o (IF \A d \in Declared(FirstSeen(e)) : Delivered(e) > d THEN "body-longer" ELSE "body-shorter"),
+     <<"ended-cl-mismatch:" \o (IF \A d \in Declared(FirstSeen(e)) : Delivered(e) > d THEN "body-longer" ELSE "body-shorter"),
        EndSeen(e) => ~CertainMismatch(Declared(FirstSeen(e)), LooseDeclared(FirstSeen(e)), Delivered(e))>>,
      \* not part of the statement
      <<"model:raised", e.raised = "">>,
